@@ -220,8 +220,17 @@ def run_on(fb, chk, tag=""):
         okb = None
         for bi, b in enumerate(f.blocks):
             for st in b["stmts"]:
-                if st["k"] == "assign" and st["lhs"]["l"] == 0 and st["rv"]["k"] == "agg" and st["rv"].get("variant") == "Ok":
-                    okb = (bi, m.sym.rvalue(st["rv"]))
+                # the success value: Ok(..) stored to the return place, or Some(..) later turned into Ok by ok_or
+                # (`find(..).map(..).ok_or(..)` after expansion); in both cases the payload is the translated address
+                if st["k"] == "assign" and st["rv"]["k"] == "agg" and st["rv"].get("variant") in ("Ok", "Some") and not b["cleanup"]:
+                    v = m.sym.rvalue(st["rv"])
+                    pay = v[3][0][1] if v[0] == "agg" and v[3] else None
+                    while pay is not None and pay[0] == "cast":
+                        pay = pay[1]
+                    if pay is not None and pay[0] == "bin" and pay[1] in ("Add", "Sub"):
+                        if st["rv"].get("variant") == "Ok" and st["lhs"]["l"] != 0:
+                            continue
+                        okb = (bi, v)
         if okb is None:
             chk.bad("M3", tag + "translation", "no Ok return found", f.loc())
         else:
@@ -265,6 +274,15 @@ def run_on(fb, chk, tag=""):
                       "translation returns %s with facts va>=base:%s va<base+size:%s (exact relations required)" % (txt[:80], ge, lt), f.loc())
             ret = m.sym.local(0)
             alts = list(ret[2]) if ret[0] == "phi" else [ret]
+            # `opt.ok_or(err)`: Err exactly when the option is None
+            more = []
+            for a in alts:
+                if a[0] == "call" and a[1] in ("ok_or", "ok_or_else") and a[2]:
+                    x = a[2][0]
+                    for y in (x[2] if x[0] == "phi" else [x]):
+                        if y[0] == "agg" and y[2] == "None":
+                            more.append(("agg", "std::result::Result", "Err", ()))
+            alts += more
             chk.check(any(ret_okness(a) is False for a in alts), "M3", tag + "translation:miss", "addresses outside every region are rejected",
                       "no error return for unmapped addresses", f.loc())
     # ------------------------------------------------------------------ M5
